@@ -325,6 +325,7 @@ impl<T: NumberLike> Iterator for &mut Decompressor<T> {
   type Item = QCompressResult<DecompressedItem<T>>;
 
   fn next(&mut self) -> Option<Self::Item> {
+    let initial_bit_idx = self.state.bit_idx;
     let res = self.with_reader(|reader, state, config| {
       if state.terminated {
         return Ok(None);
@@ -378,7 +379,12 @@ impl<T: NumberLike> Iterator for &mut Decompressor<T> {
     });
     match res {
       Ok(Some(x)) => Some(Ok(x)),
-      Ok(None) => None,
+      Ok(None) => {
+        // nothing was yielded for lack of data, so nothing may be consumed:
+        // the same bytes are parsed again once more data has been written
+        self.state.bit_idx = initial_bit_idx;
+        None
+      },
       Err(e) => Some(Err(e))
     }
   }
